@@ -561,6 +561,15 @@ def fingerprint_pair(case):
     return res
 
 
+def probe_decl(case):
+    """case: dict(css=one declaration) -> dict(yields=number of (name, value) pairs, names=[...]) ; raises on a crash"""
+    import tinycss2
+    r = _pp(tinycss2.parse_blocks_contents(case['css']))
+    if r[0] != 'ok':
+        raise RuntimeError('declaration crashes: %s' % (r[1],))
+    return dict(yields=len(r[1]), names=[n for n, _, _ in r[1]])
+
+
 def render_pair(case):
     """case: dict(a=, b=, kind=, bad=...) ; for bad-decl the inserted declaration must really yield nothing"""
     if case.get('kind') == 'bad-decl':
@@ -570,7 +579,15 @@ def render_pair(case):
             raise RuntimeError('bad declaration crashes: %s' % (r[1],))
         if r[1]:
             return dict(skipped=True)
-    return fingerprint_pair(case)
+    res = fingerprint_pair(case)
+    control = case.get('control')
+    if not res['same'] and control:
+        # mechanism test of a known finding: the pair differs AND the control pair (the same documents with the
+        # suspected cause taken out, or against what the defect is believed to compute) agrees
+        c = fingerprint_pair(dict(control, tol=case.get('tol', 0.0)))
+        res['mechanism'] = control['sig'] if c['same'] else None
+        res['control_diff'] = c['diff']
+    return res
 
 
 def multi(case):
